@@ -381,6 +381,14 @@ class CallMixin:
         site = self.site(node, 'pre')
         for i, req in enumerate(c.caller_requires):
             self.check_spec(req, f'{site}::{fi.qualname}#caller-req{i+1}', 'pre@call')
+        if self.frames and c.requires:
+            # a callee precondition may relate the actual arguments to the PARAMETERS of the function under
+            # contract (stable names, unlike its locals): they are visible as caller_<name>
+            top = self.frames[0]
+            a0 = top.func.node.args
+            for prm in [x.arg for x in a0.posonlyargs + a0.args + a0.kwonlyargs]:
+                if prm in top.env:
+                    env.setdefault('caller_' + prm, top.env[prm])
         fr = Frame(fi, env, fi.module, c, len(self.frames))
         self.frames.append(fr)
         try:
